@@ -132,6 +132,9 @@ class Report:
             return False
         vdir = os.path.join(OUT, "violations")
         os.makedirs(vdir, exist_ok=True)
+        self.n_viol = getattr(self, "n_viol", 0) + 1
+        if len({p for _, p in self.violations}) >= 25:
+            return True  # enough replay files; the count is still reported
         path = os.path.join(vdir, "%s-%s.json" % (self.prop, digest(case)))
         with open(path, "w") as f:
             json.dump({"property": self.prop, "signature": sig, "case": case}, f, indent=1, default=str)
@@ -164,7 +167,7 @@ class Report:
             "coverage": self.cov,
             "assumptions": self.assumptions,
             "wall_s": round(time.time() - self.t0, 2),
-            "violations": len(seen),
+            "violations": max(len(seen), getattr(self, "n_viol", 0)),
             "known_findings_seen": self.known_hits,
             "notes": self.notes,
         }
